@@ -72,7 +72,13 @@ def v_rules(schema: Schema, rep: Report):
         fn = p.get_function(BASE, qn).node
         va = fn.args.vararg.arg if fn.args.vararg else None
         loops = [s for s in own_statements(fn) if isinstance(s, ast.For)]
-        ok = bool(loops) and all(text(l.iter) == va for l in loops)
+        def in_order(it):
+            # the arguments themselves, or map(f, args) - both walk them left to right
+            if text(it) == va:
+                return True
+            return isinstance(it, ast.Call) and isinstance(it.func, ast.Name) and it.func.id == "map" and len(it.args) == 2 and text(it.args[1]) == va
+
+        ok = bool(loops) and all(in_order(l.iter) for l in loops)
         apps = [c for c in own_nodes(fn) if isinstance(c, ast.Call) and isinstance(c.func, ast.Attribute) and text(c.func.value) == "self" and c.func.attr in ("append", "insert", "extend")]
         ok = ok and bool(apps) and all(c.func.attr == "append" for c in apps)
         rep.check("V-R2", f"{qn}:in-argument-order", ok, "list members are not appended one by one in argument order" if not ok else "", f"{rel}:{fn.lineno}")
